@@ -153,7 +153,7 @@ func Now() time.Time {
 		return time.Now()
 	}
 	cur.Clock = cur.Clock.Add(time.Millisecond)
-	return cur.Clock
+	return cur.Clock.In(time.Local) // as time.Now does; the harness sets time.Local from the run's $TZ
 }
 func Since(t time.Time) time.Duration { return Now().Sub(t) }
 func Until(t time.Time) time.Duration { return t.Sub(Now()) }
